@@ -111,3 +111,24 @@ func VerifHarness_C13_refs() {
 	n := verifrt.Range(0, verifrt.Param("N"))
 	verifC13Compare("refs/" + verifrt.NondetString(n))
 }
+
+// verifC13Atoms builds a name from up to ATOMS atoms; each atom is the
+// solver's choice between one fully symbolic byte and the only multi-byte
+// literal of git's component rules, ".lock" (so that names with a ".lock"
+// suffix on any component fit in the bound).
+func verifC13Atoms() string {
+	k := verifrt.Range(0, verifrt.Param("ATOMS"))
+	name := ""
+	for i := 0; i < k; i++ {
+		if verifrt.NondetBool() {
+			name += ".lock"
+		} else {
+			name += verifrt.NondetString(1)
+		}
+	}
+	return name
+}
+
+func VerifHarness_C13_atoms() { verifC13Compare(verifC13Atoms()) }
+
+func VerifHarness_C13_atoms_heads() { verifC13Compare("refs/heads/" + verifC13Atoms()) }
